@@ -13,8 +13,8 @@ RULE = ('workchains whose step registers n<=3 (thorough 4) awaitables (plain fut
         'optionally a later step re-assigning a key) x every completion order x placements over loop-callback slots (incl. before registration) x '
         'outcome mixes value/exception/cancel (futures), finish/fail/kill (children); distinct by (program, plan); non-trivial when the barrier '
         'assertion was evaluated or a failure was delivered')
-ASSUMPTIONS = ['pause/play interleavings are C06', 'children are processes that wait for the harness (so completion is controlled)']
-REQUIRED = ['barrier_checks', 'ctx_checks', 'failures/exc', 'failures/killed', 'failures/cancel', 'kinds/fut', 'kinds/child', 'kinds/oldchild', 'how/ret', 'how/call', 'terminated_before_registration']
+ASSUMPTIONS = ['pause/play: the workchain paused while the items complete, then played (finer interleavings are C06)', 'children are processes that wait for the harness (so completion is controlled)']
+REQUIRED = ['barrier_checks', 'ctx_checks', 'failures/exc', 'failures/killed', 'failures/cancel', 'kinds/fut', 'kinds/child', 'kinds/oldchild', 'how/ret', 'how/call', 'terminated_before_registration', 'failure_while_paused']
 BOUNDS = {'quick': 'n<=3 awaitables, all completion orders, placements sampled on a grid', 'thorough': 'n<=4, all placements'}
 
 
@@ -58,6 +58,7 @@ def gen_cases(tier, seed):
     cap = 150 if tier == 'quick' else 1200
     for name, prog in sorted(_programs(tier).items()):
         cases = []
+        paused_cases = []
         items = [(idx, 'child' if kind == 'oldchild' else kind) for st in prog['steps'] for _k, idx, kind, _h in st['reg']]
         ref = wcprog.run_case({'program': prog, 'plan': [], 'drain': True})
         nslots = ref['slots'] + 1
@@ -92,8 +93,16 @@ def gen_cases(tier, seed):
                 for pos in allpos:
                     plan = [{'at': p, 'act': list(a)} for p, a in zip(pos, perm)]
                     cases.append({'name': name, 'program': prog, 'plan': plan, 'drain': True, 'listener': False})
+                # the workchain is paused (from within the registering step, or while it waits at the barrier) when the
+                # awaited items complete, and played afterwards
+                for first in ([{'at': 1, 'act': ['pause', 'pp']}], [{'at': 'q', 'act': ['pause', 'pq']}]):
+                    plan = first + [{'at': 'q', 'act': list(a)} for a in perm]
+                    paused_cases.append({'name': name, 'program': prog, 'plan': plan, 'drain': True, 'listener': False})
         if len(cases) > cap:
             cases = rng.sample(cases, cap)
+        if len(paused_cases) > cap // 5:
+            paused_cases = rng.sample(paused_cases, cap // 5)
+        cases += paused_cases
         for case in cases:
             yield case
 
@@ -101,13 +110,16 @@ def gen_cases(tier, seed):
 def run_case(case):
     rec = wcprog.run_case(case)
     viol = judges.judge_c10(rec)
-    obs = {'barrier_checks': 0, 'ctx_checks': 0, 'failures': {}, 'kinds': {}, 'how': {}, 'early_completions': 0, 'final': {}, 'terminated_before_registration': 0}
+    obs = {'barrier_checks': 0, 'ctx_checks': 0, 'failures': {}, 'kinds': {}, 'how': {}, 'early_completions': 0, 'final': {}, 'terminated_before_registration': 0, 'failure_while_paused': 0}
     steps = case['program']['steps']
     for e in rec['events']:
         if e[0] == 'trace' and e[1] == 'enter' and e[2] > 0:
             obs['barrier_checks'] += len(e[6])
             obs['ctx_checks'] += len(e[5])
+    paused_at_completion = any(a['kind'] in ('complete', 'child') and a.get('paused_before') for a in rec['acts'])
     for c in rec['extra']['completions']:
+        if c[1][0] in ('exc', 'cancel', 'killed') and paused_at_completion:
+            obs['failure_while_paused'] = 1
         if c[1][0] in ('exc', 'cancel', 'killed'):
             obs['failures'][c[1][0]] = obs['failures'].get(c[1][0], 0) + 1
     for st in steps:
